@@ -15,7 +15,7 @@ notes = {
  "C07": "NOT decided: that the resulting contents equal the specification for every input sequence; decides hint-independence (taint), the first/last/receiver-wins table, rebuild after every bulk path, table growth.",
  "C08": "NOT decided: value-level outcomes; indexmap's retain2 visiting each element exactly once is trusted. KNOWN FINDING D9 (genuine, not repaired, listed in known_findings.json): the &mut items of iter_mut() outlive the iterator whose destructor rebuilds the heap - writes through collected references happen after the rebuild (R-LENDING); the check prints KNOWN-FINDING and exits 0.",
  "C09": "The cursor discipline is sufficient for uniqueness given get_index_mut2's contract, so the aliasing clause itself is decided for all call sequences.",
- "C10": "Trusted: indexmap/std stay memory safe when a user callback unwinds. Panics in user Drop impls are outside the property's list of user code. A stale map after a panicking retain2 leads to safe panics only (bounds-checked map accesses).",
+ "C10": "Trusted: indexmap/std stay memory safe when a user callback unwinds. Panics in user Drop impls are outside the property's list of user code. indexmap is NOT trusted to keep its map usable when a callback unwinds inside a structural write (retain2, clone_from, sort_by, dedup_by, extend, extract_if are W;U events: user code inside them is a violation - D8).",
  "C11": "Relies on the C01/C02/C03 rules for push itself.",
  "C12": "Nothing structural remains undecided; interior mutability in user types is outside the property.",
  "C13": "'each element exactly once' for the delegating wrappers is indexmap's contract (trusted); decides wiring, size_hint/len agreement, fusedness, no unverifiable overrides.",
